@@ -292,7 +292,7 @@ func vSameOut(a, b vBlockOut) bool {
 // vAppBlocks draws the ABCI history: three blocks with symbolic votes, an optional double-sign evidence and one
 // transaction of a symbolic kind (send, stake, begin-unstake, DAO transfer by the owner / by a stranger, a forged
 // signature, undecodable bytes) in block 2, and a follow-up transaction in block 3.
-func vAppBlocks(cdc *codec.Codec, symbolic bool, symPower bool, oneVoteChoice bool, unjailInBlock3 bool, unstakeInBlock1 bool) ([]vBlockIn, int) {
+func vAppBlocks(cdc *codec.Codec, symbolic bool, symPower bool, oneVoteChoice bool, unjailInBlock3 bool, unstakeInBlock1 bool, fewKinds bool) ([]vBlockIn, int) {
 	_, k0 := vAppKey(0)
 	_, k1 := vAppKey(1)
 	_, k2 := vAppKey(2)
@@ -324,7 +324,9 @@ func vAppBlocks(cdc *codec.Codec, symbolic bool, symPower bool, oneVoteChoice bo
 	}
 	var tx []byte
 	kind := 0
-	if !unstakeInBlock1 {
+	if fewKinds {
+		kind = zz.Choice("h2_tx", 3) // send, stake, begin-unstake
+	} else if !unstakeInBlock1 {
 		kind = zz.Choice("h2_tx", 12)
 	}
 	switch kind {
@@ -448,7 +450,9 @@ func (s vTMSet) matches(v *vFullApp, ctx sdk.Context) bool {
 			cs[j], cs[j-1] = cs[j-1], cs[j]
 		}
 	}
-	if max := int(v.pk.MaxValidators(ctx)); len(cs) > max {
+	var limit uint64 // as stored, not through the keeper's own getter
+	v.pk.Paramstore.Get(ctx, postypes.KeyMaxValidators, &limit)
+	if max := int(limit); len(cs) > max {
 		cs = cs[:max]
 	}
 	for _, c := range cs {
@@ -486,13 +490,15 @@ func vFullRun(p string) {
 		zz.Assert(p+".full.initchain-batch-applicable", tm.apply(ra.Validators))
 	}
 	unstakeInBlock1 := p == "C06" && zz.Choice("begin_unstake_in_block_1", 2) == 1
-	// (the two-replica variant draws one vote pattern for both later blocks in the quick tier: it runs everything twice)
-	blocks, kind := vAppBlocks(a.cdc, keepAll, p == "C07" || p == "C02", p == "C01" && !zz.Thorough(), p == "C09", unstakeInBlock1)
+	// (quick tier: the two-replica variant draws one vote pattern for both later blocks - it runs everything twice; the
+	// slashing variant, whose symbolic reported power multiplies the paths, draws three transaction kinds; the supply
+	// variant uses the reported power 24)
+	blocks, kind := vAppBlocks(a.cdc, keepAll, p == "C07" || (p == "C02" && zz.Thorough()), p == "C01" && !zz.Thorough(), p == "C09", unstakeInBlock1, p == "C07" && !zz.Thorough())
 	restartAfter := int64(0)
 	if p == "C01" {
 		restartAfter = int64(zz.Choice("restart_after", 4)) // 0 = never
 	}
-	var supply0, prevPool, prevSupply sdk.Int
+	var supply0, prevPool, prevSupply, supBefore sdk.Int
 	vPassesAnte := kind != 5 // every transaction kind but the forged signature passes the ante handler and pays
 	for _, blk := range blocks {
 		if p == "C10" {
@@ -514,6 +520,12 @@ func vFullRun(p string) {
 			return
 		}
 		ctx := a.view(blk)
+		// a block that carried expired evidence and did not stop the node has burned nothing
+		supNow := a.ak.GetSupply(ctx).GetTotal().AmountOf(sdk.DefaultStakeDenom)
+		if blk.evidence && blk.evAge > 120 {
+			zz.Assert(p+".full.expired-evidence-burns-nothing", supNow.Equal(supBefore))
+		}
+		supBefore = supNow
 		// which transactions execute is part of every claim below (and of the comparison with the native build)
 		failsInHandler := kind == 4 || kind == 7 || kind == 9 || kind == 10 || kind == 11 || (kind == 3 && daoTokens == 0)
 		okWanted := blk.h != 2 || (kind != 5 && !failsInHandler)
@@ -605,7 +617,11 @@ func vFullRun(p string) {
 				zz.Assert("C07.full.doublesign-burns-entire-stake", found4 && v4.StakedTokens.IsZero() && v4.Status == sdk.Unstaked && v4.Jailed && info.Tombstoned &&
 					prevPool.Sub(pool).Equal(sdk.NewInt(24000000)) && prevSupply.Sub(sup).Equal(sdk.NewInt(24000000)))
 			} else if blk.h > 1 {
-				zz.Assert("C07.full.no-evidence-no-burn", pool.Equal(prevPool.Add(vStakedInBlock(blk.h, kind))) && sup.Equal(prevSupply))
+				paidOut := sdk.ZeroInt() // an unstaking that matured in this block left the pool for its owner's account
+				if kind == 2 && blk.h == 3 && blk.late+time.Minute >= 21*24*time.Hour {
+					paidOut = sdk.NewInt(24000000)
+				}
+				zz.Assert("C07.full.no-evidence-no-burn", pool.Equal(prevPool.Add(vStakedInBlock(blk.h, kind)).Sub(paidOut)) && sup.Equal(prevSupply))
 			}
 			zz.Assert("C07.full.other-validator-untouched", v3.StakedTokens.Equal(sdk.NewInt(23000000)) && v3.Status == sdk.Staked && !v3.Jailed)
 			prevPool, prevSupply = pool, sup
